@@ -210,13 +210,13 @@ Proof.
           assert (Nb1 : b <> i1) by (intro E; apply Nmb; unfold rb; rewrite E; symmetry; exact J1).
           rewrite La, Lb.
           destruct Hnm as [E|E].
-          - assert (a = i2) by (unfold i2; rewrite E; symmetry; exact EqA). subst a.
-            rewrite Nat.eqb_refl.
+          - assert (Hai : a = i2) by (unfold i2; rewrite E; symmetry; exact EqA).
+            assert (Hai' : (a =? i2) = true) by (apply Nat.eqb_eq; exact Hai). rewrite Hai'.
             destruct (b =? i2) eqn:Eb; [apply Nat.eqb_eq in Eb; congruence|].
             destruct (b =? i1) eqn:Eb1; [apply Nat.eqb_eq in Eb1; congruence|].
             rewrite has_edge_sym. apply Star; auto.
-          - assert (b = i2) by (unfold i2; rewrite E; symmetry; exact EqB). subst b.
-            rewrite Nat.eqb_refl.
+          - assert (Hbi : b = i2) by (unfold i2; rewrite E; symmetry; exact EqB).
+            assert (Hbi' : (b =? i2) = true) by (apply Nat.eqb_eq; exact Hbi). rewrite Hbi'.
             destruct (a =? i2) eqn:Ea; [apply Nat.eqb_eq in Ea; congruence|].
             destruct (a =? i1) eqn:Ea1; [apply Nat.eqb_eq in Ea1; congruence|].
             apply Star; auto. }
@@ -263,4 +263,10 @@ Proof.
   destruct Hit as ([i g] & <- & Hin). apply in_combine_r in Hin. cbn [fst snd].
   unfold wf_item. cbn [iqs igates forallb]. rewrite subsetb_refl, (Hn g Hin). cbn.
   rewrite andb_true_r. apply forallb_forall. intros q Hq0. apply Nat.ltb_lt. eapply Hq; eauto.
+Qed.
+
+Lemma flat_items_from queue : forall i, flat_map igates (items_from i queue) = queue.
+Proof.
+  induction queue as [|g rest IH]; intro i; [reflexivity|].
+  rewrite items_from_cons. cbn [flat_map igates app]. rewrite IH. reflexivity.
 Qed.
